@@ -96,6 +96,8 @@ pub struct Plan {
     pub jobs: Vec<JobDef>,
     /// wall budget for the whole check, seconds
     pub wall_s: u64,
+    /// witness counter that counts the distinct non-trivial cases (default: distinct states)
+    pub distinct_counter: Option<&'static str>,
 }
 
 pub const ALL_PROPERTIES: &[&str] = &[
@@ -233,6 +235,17 @@ pub fn plan(property: &str, tier: Tier) -> Option<Plan> {
             jobs.push(g("c11/on_update", "dbg", if q { 4 } else { 6 }).armed(&a));
             ("model_checking", mc_rule, vec!["audit = hook H1 verif_audit (port of the upstream invariant walkers), run after every single action", "only rules restating a clause of the property decide (DESIGN Appendix B)"], if q { 45 } else { 1500 })
         }
+        "C13" => {
+            let a = ["C13"];
+            jobs.push(g("c13/faults", "rel", if q { 7 } else { 9 }).armed(&a));
+            jobs.push(g("c13/faults", "dbg", if q { 6 } else { 8 }).armed(&a));
+            (
+                "fault_enumeration",
+                "every history explored by the digest-pruned BFS that ends in stabilise is re-executed once per user-closure invocation (node function, bind closure, cutoff function, update handler) of that stabilise with a panic injected exactly there, in two drop orders; a case = (history, crash point); distinct_nontrivial counts the distinct (history, crash point) pairs in which the injected panic really fired",
+                vec!["crash points are invocations of instrumented user closures only (allocation failure etc. not modelled)", "post-panic script: reads, writes, new observer, further stabilise, drop of everything in two orders"],
+                if q { 40 } else { 1200 },
+            )
+        }
         _ => return None,
     };
     Some(Plan {
@@ -242,6 +255,10 @@ pub fn plan(property: &str, tier: Tier) -> Option<Plan> {
         assumptions,
         jobs,
         wall_s: wall,
+        distinct_counter: match property {
+            "C13" => Some("fault_points"),
+            _ => None,
+        },
     })
 }
 
